@@ -323,8 +323,8 @@ def tree_to_operations(tree: Number, output: Variable, output_operation: str, to
     else:
         can_inject = False
 
-    def new_variable() -> TemporaryVariable:
-        if free_temporary_variable:
+    def new_variable(is_reusing: bool = True) -> TemporaryVariable:
+        if free_temporary_variable and is_reusing:
             return free_temporary_variable.pop(0)
         nonlocal max_index
         max_index += 1
@@ -392,13 +392,16 @@ def tree_to_operations(tree: Number, output: Variable, output_operation: str, to
                     (output_variable, Operator("", Token.empty()), const))
             return const
 
-        new_var = new_variable()
+        # When the output is injected, the temporary variable that takes its value (without a copy)
+        # will be the output itself: it must not have been written to before
+        is_output = can_inject and output.content == left_var.content
+        new_var = new_variable(is_reusing=not is_output)
         if is_first_time:
             output_variable = new_var
         if isinstance(right_var, TemporaryVariable):
             bisect.insort(free_temporary_variable,
                           right_var, key=lambda x: x.index)
-        if not can_inject or output.content != left_var.content:
+        if not is_output:
             operations.append(
                 (new_var, Operator("", Token.empty()), left_var))
         if node.content == "**":
